@@ -98,7 +98,12 @@ where
     for (ki, ks) in keys.iter().enumerate() {
         let other = &keys[(ki + 1) % keys.len()];
         for n in 1..=5usize {
-            let msgs = attrs::<C>(&mut rng, n);
+            let mut msgs = attrs::<C>(&mut rng, n);
+            if n == 3 {
+                // always one credential with an attribute equal to 0 in the middle (a legal value: a_i^0 = 1)
+                msgs[1] = CL03Message::new(Integer::from(0));
+            }
+            let msgs = msgs;
             let sig = Signature::<CL03<C>>::sign_multiattr(&ks.pk, &ks.sk, &ks.bases, &msgs);
             let s = sig.cl03Signature().clone();
             let (e, sv, v) = sig_parts(&s);
@@ -529,6 +534,44 @@ where
                         continue;
                     };
                     ev.push(json!({"op": "CLRange", "suite": suite, "key": ki, "bases": bname, "width": wname, "x": xname, "case": "honest", "res": b3(guard(|| proof.verify::<C::HashAlg>(g, h, n, &a, &b)))}));
+                    // the h-parts of E_a_1, E_a_2, E_b_1, E_b_2 (the witness holder strips the g-parts): their only
+                    // relation is E_a_1 E_a_2 = E_a, E_b_1 E_b_2 = E_b; no two are equal, no two cancel
+                    {
+                        let pj0 = serde_json::to_value(&proof).unwrap();
+                        let tt = 2 * (128u32 + 40 + 1) + (&b - &a).complete().significant_bits();
+                        let two_t = Integer::from(2).pow(tt);
+                        let mut parts: Vec<(&str, Integer)> = vec![];
+                        for widen in [false, true] {
+                            let sq = Integer::from((&b - &a).complete().sqrt_ref());
+                            let shift = if widen { Integer::from(2).pow(40 + 128 + tt / 2 + 1) * sq } else { Integer::from(0) };
+                            let xa = (&two_t * x).complete() - ((&two_t * &a).complete() - &shift);
+                            let xb = ((&two_t * &b).complete() + &shift) - (&two_t * x).complete();
+                            if xa < 0 || xb < 0 {
+                                continue;
+                            }
+                            let (xa1, xb1) = (Integer::from(xa.sqrt_ref()), Integer::from(xb.sqrt_ref()));
+                            let (xa1s, xb1s) = (xa1.clone() * &xa1, xb1.clone() * &xb1);
+                            let gets = |k: &str| -> Integer { serde_json::from_value(pj0["proof_of_tolerance"][k].clone()).unwrap() };
+                            let strip = |k: &str, ex: &Integer| (gets(k) * pow_signed_big(g, &(-ex.clone()), n)).modulo(n);
+                            let cand = vec![("E_a_1", strip("E_a_1", &xa1s)), ("E_a_2", strip("E_a_2", &(xa.clone() - &xa1s))), ("E_b_1", strip("E_b_1", &xb1s)), ("E_b_2", strip("E_b_2", &(xb.clone() - &xb1s)))];
+                            // keep the reading under which the stripped parts multiply to 1 (the library's reference points)
+                            let prod = cand.iter().fold(Integer::from(1), |acc, c| (acc * &c.1).modulo(n));
+                            if prod == 1 {
+                                parts = cand;
+                                break;
+                            }
+                        }
+                        let mut hits: Vec<Value> = vec![];
+                        for i in 0..parts.len() {
+                            for j in i + 1..parts.len() {
+                                let pr = (parts[i].1.clone() * &parts[j].1).modulo(n);
+                                if parts[i].1 == parts[j].1 || pr == 1 {
+                                    hits.push(json!([parts[i].0, parts[j].0]));
+                                }
+                            }
+                        }
+                        ev.push(json!({"op": "CLRangeSplit", "suite": suite, "key": ki, "bases": bname, "width": wname, "x": xname, "stripped": parts.len(), "hits": hits}));
+                    }
                     if *xname != "mid" && !thorough {
                         continue;
                     }
@@ -715,6 +758,38 @@ where
                 s_in = s_in + &ks.pk.b.to_string() + &commitment.value().to_string() + &t_ms.to_string();
                 let c_ms = Integer::from_digits(<C::HashAlg as Digest>::digest(s_in).as_slice(), rug::integer::Order::MsfBe);
                 mask_events::<C>("zkpok", suite, n, &u, &zj, &secrets, ks, &[("proof_commited_msgs:challenge".to_string(), c_ms)], ev);
+                // ---- issuance proof with a trusted party's commitment: made by the library (ln-bit randomness),
+                //      and made by a party that used a short (256-bit) randomness
+                if n <= 2 || thorough {
+                    for short in [false, true] {
+                        let ctr = if short {
+                            let r = rng.bits(256);
+                            let mut cv = Integer::from(1);
+                            for &i in &u {
+                                cv = (cv * pow_signed_big(&ks.cpk_own.g_bases[i], &msgs[i].value, &ks.cpk_own.N)).modulo(&ks.cpk_own.N);
+                            }
+                            cv = (cv * pow_signed_big(&ks.cpk_own.h, &r, &ks.cpk_own.N)).modulo(&ks.cpk_own.N);
+                            make_commitment(&cv, &r)
+                        } else {
+                            Commitment::<CL03<C>>::commit_with_commitment_pk(&msgs, &ks.cpk_own, Some(&u)).cl03Commitment().clone()
+                        };
+                        let zt = guard(|| ZKPoK::<CL03<C>>::generate_proof(&msgs, commitment.cl03Commitment(), Some(&ctr), &ks.pk, &ks.bases, Some(&ks.cpk_own), &u));
+                        let Ok(zt) = zt else { continue };
+                        let ok = guard(|| zt.verify_proof(commitment.cl03Commitment(), Some(&ctr), &ks.pk, &ks.bases, Some(&ks.cpk_own), &u));
+                        ev.push(json!({"op": "CLPoK", "suite": suite, "key": ki, "n": n, "U": u, "mismatch": "none", "res": b3(ok)}));
+                        let ztj = serde_json::to_value(&zt).unwrap();
+                        let t_ms: Integer = serde_json::from_value(ztj["CL03"]["proof_commited_msgs"]["t"].clone()).unwrap();
+                        let mut s_in = String::new();
+                        for &i in &u {
+                            s_in += &ks.bases.0[i].to_string();
+                        }
+                        s_in = s_in + &ks.pk.b.to_string() + &commitment.value().to_string() + &t_ms.to_string();
+                        let c_t = Integer::from_digits(<C::HashAlg as Digest>::digest(s_in).as_slice(), rug::integer::Order::MsfBe);
+                        let mut sec_t = secrets.clone();
+                        sec_t.push(("r_trusted".into(), ctr.randomness.clone()));
+                        mask_events::<C>("zkpok", suite, n, &u, &ztj, &sec_t, ks, &[("proof_commited_msgs:challenge".to_string(), c_t)], ev);
+                    }
+                }
                 // ---- signature proof
                 verif_hooks::start_recording();
                 let proof = PoKSignature::<CL03<C>>::proof_gen(sig.cl03Signature(), &cpk, &ks.pk, &bases_n, &msgs, &u);
@@ -897,6 +972,42 @@ where
                         for (sn2, x2) in secrets {
                             if sn != sn2 && q == (x.clone() - x2) {
                                 diffs.push(json!({"path": norm_path(p), "path2": norm_path(p2), "secrets": [sn, sn2]}));
+                            }
+                        }
+                    }
+                }
+            }
+        }
+    }
+    // implied blindings: for every response s, recomputable challenge c and secret x, the value s - c x (and
+    // s + c x).  Two different response leaves with the same implied blinding share it -- also when they
+    // belong to two sub-proofs with different challenges: (s - s') / (c - c') would then be the secret
+    {
+        let mut implied: std::collections::HashMap<Integer, (String, String)> = Default::default();
+        'outer: for (p, s) in &resp {
+            for (_, c) in &challenges {
+                if *c == 0 {
+                    continue;
+                }
+                for (sn, x) in secrets {
+                    if *x < 1000 {
+                        continue;
+                    }
+                    let cx = (c * x).complete();
+                    for b in [((*s).clone() - &cx), ((*s).clone() + &cx)] {
+                        if b.significant_bits() < 64 {
+                            continue;
+                        }
+                        match implied.get(&b) {
+                            Some((p0, sn0)) if p0 != p => {
+                                diffs.push(json!({"path": norm_path(p0), "path2": norm_path(p), "secrets": [sn0, sn], "kind": "implied blinding"}));
+                                if diffs.len() > 8 {
+                                    break 'outer;
+                                }
+                            }
+                            Some(_) => {}
+                            None => {
+                                implied.insert(b, (p.clone(), sn.clone()));
                             }
                         }
                     }
